@@ -813,6 +813,8 @@ class Gen:
         ev = {"k": "inplace", "form": "ufunc", "op": op, "tgt": tgt, "args": args, "spell": self.choice(["f", "n"])}
         if mask is not None:
             ev["where"] = enc_arr(mask)
+        if self.coin(0.2):
+            ev["out_tuple"] = True
         self.emit(ev)
         return tgt
 
